@@ -30,7 +30,9 @@ RULE = (
     "index (process killed at the j-th execution of that line), and every byte size 0..size-1 of a result file "
     "(kernel kills the writer at that size; quick tier: stride + first/last 8), for small tuple payloads, a larger "
     "dict payload and real Simulation results of scan.time_course, sequential and parallel (2-3 pebble workers, "
-    "kill inside a worker). non-trivial = the failpoint fired (the caching run really died); distinct = crash point id"
+    "kill inside a worker); plus partially filled caches - every proper non-empty subset of 4 keys present before the "
+    "full run, for parallelise, scan.time_course and scan.steady_state (positional row alignment). Results are compared "
+    "as ordered lists with the cache-free run. non-trivial = the failpoint fired (the caching run really died) or the pre-existing cache is not a prefix of the keys; distinct = crash point id"
 )
 ASSUMPTIONS = [
     "process death at Python line boundaries and at file byte boundaries (not arbitrary machine instructions); page-cache loss is not modelled",
@@ -90,6 +92,18 @@ def gen_cases(tier: str, seed: int) -> list[dict]:
     for ln in lines_sv + lines_lr[-3:]:
         cases.append({"payload": "scan", "nkeys": 3, "workers": 0, "fp": {"kind": "line", "func": "save" if ln in lines_sv else "load_or_run", "line": ln, "hit": 2}})
         cases.append({"payload": "scan", "nkeys": 3, "workers": 2, "fp": {"kind": "line", "func": "save" if ln in lines_sv else "load_or_run", "line": ln, "hit": 1}})
+    # partially filled caches: what a killed parallel run (or a run over fewer keys) leaves behind - every proper non-empty subset of the keys
+    import itertools
+
+    for r in range(1, 4):
+        for sub in itertools.combinations(range(4), r):
+            for w in ((0, 2) if tier != "quick" or len(sub) != 2 else (0,)):
+                cases.append({"payload": "small", "nkeys": 4, "workers": w, "fp": {"kind": "subset", "subset": list(sub)}})
+    for sub in ([1, 3], [3], [0, 2], [1, 2, 3]):
+        for pl in ("scan_ss", "scan"):
+            cases.append({"payload": pl, "nkeys": 4, "workers": 0, "fp": {"kind": "subset", "subset": sub}})
+    cases.append({"payload": "scan_ss", "nkeys": 4, "workers": 2, "fp": {"kind": "subset", "subset": [1, 3]}})
+    cases.append({"payload": "scan_ss", "nkeys": 3, "workers": 0, "fp": {"kind": "none"}})
     for i, c in enumerate(cases):
         c["seed"] = f"{seed}:C19:{i}"
     return cases
@@ -110,16 +124,19 @@ def _scan_model():  # noqa: ANN202
     return rm.build(net.spec())
 
 
-def run_workload(payload: str, nkeys: int, cache_dir: str | None, workers: int):  # noqa: ANN201
-    """The real caching run. Returns {key: comparable result}."""
+def run_workload(payload: str, nkeys: int, cache_dir: str | None, workers: int, only: list[int] | None = None):  # noqa: ANN201
+    """The real caching run. Returns the results as an ordered list of (key, comparable result): the order in which
+    results come back is part of "the same results" (scans align them with their input rows by position).
+    `only` restricts the run to a subset of the keys (used to leave a partially filled cache behind)."""
     from mxlpy.parallel import Cache, parallelise
 
     cache = None if cache_dir is None else Cache(tmp_dir=__import__("pathlib").Path(cache_dir))
+    idx = list(range(nkeys)) if only is None else list(only)
     if payload in ("small", "medium"):
         fn = cachefn.small if payload == "small" else cachefn.medium
-        res = parallelise(fn, [(f"k{i}", i + 2) for i in range(nkeys)], cache=cache, parallel=workers > 0,
+        res = parallelise(fn, [(f"k{i}", i + 2) for i in idx], cache=cache, parallel=workers > 0,
                           max_workers=workers or None, disable_tqdm=True)
-        return {k: v for k, v in res}
+        return [(k, v) for k, v in res]
     from mxlpy import scan
 
     import multiprocessing
@@ -127,12 +144,19 @@ def run_workload(payload: str, nkeys: int, cache_dir: str | None, workers: int):
     old = multiprocessing.cpu_count
     if workers:
         multiprocessing.cpu_count = lambda: workers
+    table = pd.DataFrame({"k1": [0.5 + 0.25 * i for i in idx]}, index=idx)
     try:
-        out = scan.time_course(_scan_model(), to_scan=pd.DataFrame({"k1": [0.5 + 0.25 * i for i in range(nkeys)]}),
-                               time_points=np.linspace(0, 2, 9), parallel=workers > 0, cache=cache)
+        if payload == "scan_ss":
+            out = scan.steady_state(_scan_model(), to_scan=table, parallel=workers > 0, cache=cache)
+        else:
+            out = scan.time_course(_scan_model(), to_scan=table, time_points=np.linspace(0, 2, 9), parallel=workers > 0, cache=cache)
     finally:
         multiprocessing.cpu_count = old
-    return {str(k): (v.variables.round(12).to_dict(), v.fluxes.round(12).to_dict()) for k, v in out.raw_results.items()}
+    if payload == "scan_ss":
+        # the public tables: one row per input row, labelled by the scanned value
+        v, f = out.variables, out.fluxes
+        return [(str(v.index[i]), (v.iloc[i].round(9).to_dict(), f.iloc[i].round(9).to_dict())) for i in range(len(v))]
+    return [(str(k), (v.variables.round(12).to_dict(), v.fluxes.round(12).to_dict())) for k, v in out.raw_results.items()]
 
 
 def _child(fn) -> tuple[int, int | None]:  # noqa: ANN001
@@ -193,7 +217,7 @@ def run_case(case: dict) -> dict:
                 failpoints.arm_line_exit(target, fp["line"], fp["hit"])
             elif fp["kind"] == "byte":
                 failpoints.arm_byte_kill(_save_fn(), fp["hit"], fp["bytes"])
-            got = run_workload(payload, nkeys, cdir, workers)
+            got = run_workload(payload, nkeys, cdir, workers, fp.get("subset"))
             with open(os.path.join(root, "run1.pkl"), "wb") as fh:
                 pickle.dump(got, fh)
 
@@ -207,7 +231,8 @@ def run_case(case: dict) -> dict:
         if not died:
             with open(os.path.join(root, "run1.pkl"), "rb") as fh:
                 got1 = pickle.load(fh)  # noqa: S301
-            if got1 != expected:
+            exp1 = expected if fp["kind"] != "subset" else run_workload(payload, nkeys, None, 0, fp["subset"])
+            if got1 != exp1:
                 viols.append(core.viol("results with a cache differ from results without", None, case=ident, got=str(got1)[:300], expected=str(expected)[:300]))
         calls_after_1 = _calls(calllog)
 
@@ -229,8 +254,12 @@ def run_case(case: dict) -> dict:
             with open(os.path.join(root, "run2.pkl"), "rb") as fh:
                 got2 = pickle.load(fh)  # noqa: S301
             if got2 != expected:
-                bad = [k for k in expected if got2.get(k) != expected[k]]
-                viols.append(core.viol("rerun after an interrupted caching run returns a wrong result", mech(case, listing), case=ident, keys=bad, post_crash_files=listing))
+                if dict(got2) == dict(expected):
+                    viols.append(core.viol("rerun over a partially filled cache returns the results in a different order than a run without cache", mech(case, listing),
+                                           case=ident, got_order=[k for k, _ in got2], expected_order=[k for k, _ in expected], post_crash_files=listing))
+                else:
+                    bad = [k for k, v in expected if dict(got2).get(k) != v]
+                    viols.append(core.viol("rerun after an interrupted caching run returns a wrong result", mech(case, listing), case=ident, keys=bad, post_crash_files=listing))
             counters["rerun_compared_keys"] = len(expected)
             calls_after_2 = _calls(calllog)
             # ---- run 3: everything must come from disk -----------------------------
@@ -246,11 +275,20 @@ def run_case(case: dict) -> dict:
                 if recomputed:
                     viols.append(core.viol("repeated run recomputed keys whose result file exists", None, case=ident, recomputed=recomputed))
                 counters["third_run_checked"] = 1
-            if not died and len(calls_after_2) != len(calls_after_1):
+            if fp["kind"] == "subset":
+                redone = sorted(calls_after_2[len(calls_after_1):])
+                want = sorted(str(i + 2) for i in range(nkeys) if i not in fp["subset"]) if payload in ("small", "medium") else None
+                if want is not None and redone != want:
+                    viols.append(core.viol("rerun over a partially filled cache did not compute exactly the missing keys", None, case=ident, computed=redone, missing=want))
+                counters["partial_cache_reruns"] = 1
+            elif not died and len(calls_after_2) != len(calls_after_1):
                 viols.append(core.viol("second run recomputed keys although the first run completed", None, case=ident, calls=calls_after_2[len(calls_after_1):]))
     finally:
         shutil.rmtree(root, ignore_errors=True)
     info = {"post_crash_files": listing, "run1_status": st1}
+    if fp["kind"] == "subset":
+        died = fp["subset"] != list(range(len(fp["subset"])))  # a cache that is not a prefix of the keys
+        counters["partial_cache_not_a_prefix"] = int(died)
     return core.result(sig=core.sha(ident), nontrivial=died, violations=viols[:3], counters=counters,
                        sample={"case": ident, "post_crash_directory": listing, "run1_exit": st1} if died and case.get("idx", 0) % 25 == 0 else None, info=info)
 
